@@ -280,6 +280,7 @@ def pyInplace (s : BState) (k : ShortK) (cur v : Val) : BR :=
     (match cur with
      | .ref a => match s.heap.get? a, toInt? v with
        | some (.list xs), some n =>
+         if xs.length * n.toNat > 1000000 then U "repeat-huge" else
          ret (.ref a) { s with heap := s.heap.set a (.list ((List.replicate n.toNat xs).flatten)) }
        | _, _ => .error .typeError
      | _ => (pyMulNative s.heap cur v).map (fun (r, h) => (r, { s with heap := h })))
